@@ -709,13 +709,22 @@ def portfolio(gb, solvers, extra, timeout):
 
 
 def _portfolio(gb, solvers, extra, timeout):
+    # cbmc writes the SMT problem (tens of MB) to $TMPDIR and leaves it behind when it is killed: a directory of our own
+    tdir = tempfile.mkdtemp(prefix='smt.', dir=SCRATCH)
+    try:
+        return _portfolio_in(gb, solvers, extra, timeout, tdir)
+    finally:
+        shutil.rmtree(tdir, ignore_errors=True)
+
+
+def _portfolio_in(gb, solvers, extra, timeout, tdir):
     procs = []
     t0 = time.time()
     for s in solvers:
         outp = '%s.%s.%d.out' % (gb, s, next(_uniq))
         f = open(outp, 'w')
         p = subprocess.Popen(['bash', '-c', 'ulimit -v %d; exec "$@"' % MEMLIMIT_KB, 'sh'] + cbmc_cmd(gb, s, extra),
-                             stdout=f, stderr=subprocess.PIPE, env=solver_env(s), start_new_session=True)
+                             stdout=f, stderr=subprocess.PIPE, env=dict(solver_env(s), TMPDIR=tdir), start_new_session=True)
         procs.append((s, p, f, outp))
     outs, winner = [], None
     winner_abort = False
